@@ -540,18 +540,12 @@ def build_func(space, sd, fd, geo=None):
         f = S.FunctionalQuadraticPerturb(c.f, quadratic_coeff=a,
                                          linear_term=u, constant=k)
         ref = None if rv(c) is None else R.QuadPerturb(rv(c), a, uf, k)
-        region = {}
-        if c.f.is_linear and a == 0 and k != 0:
-            # flagged linear by FunctionalQuadraticPerturb although the
-            # constant makes it affine
-            region['qplin'] = 1
-
         def asm(x):
             v = c.value(x) + a * x.inner(x) + k
             if u is not None:
                 v = v + x.inner(u)
             return v
-        return node(f, ref, [c], asm, region=region)
+        return node(f, ref, [c], asm)
     if cls == 'sum':
         c1, c2 = child('f'), child('g')
         f = c1.f + c2.f
@@ -962,7 +956,7 @@ def leaf_funcs(draw, sd, purpose, top=True, full=False):
         return {'cls': cls, 'gamma': draw(st.sampled_from(gammas)),
                 'fill': draw(st.sampled_from([0.0, 1.0, -0.5]))}
     if cls in ('KL', 'KLConj'):
-        return {'cls': cls, 'prior': draw(priors(n, zeros=top))}
+        return {'cls': cls, 'prior': draw(priors(n, zeros=True))}
     if cls in ('KLCE', 'KLCEConj'):
         return {'cls': cls, 'prior': draw(priors(n))}
     if cls == 'IndicatorLpUnitBall':
@@ -1104,8 +1098,7 @@ def linear_descs(draw, sd, purpose):
             kinds += ['comp']
     k = draw(st.sampled_from(kinds))
     if k == 'leftscal':
-        s = draw(scal_pos()) if purpose == 'conj' else draw(scal_chain())
-        return {'cls': 'leftscal', 's': s, 'f': lin}
+        return {'cls': 'leftscal', 's': draw(scal_chain()), 'f': lin}
     if k == 'sum':
         return {'cls': 'sum', 'f': lin,
                 'g': {'cls': 'LinearForm',
@@ -1141,8 +1134,6 @@ def chain_descs(draw, sd, purpose, depth):
         inner = draw(func_descs(sd, purpose, max(depth - 2, 0), top=False,
                                 full=(purpose == 'grad')))
     s = draw(scal_chain())
-    if purpose == 'conj':
-        s = abs(s)
     chains = ['trans-scale', 'scale-trans', 'sum-scale']
     if sk != 'field':
         chains += ['pert-scale']
@@ -1191,13 +1182,7 @@ def func_descs(draw, sd, purpose, depth, top=True, full=False):
         s = draw(scal_pos()) if purpose == 'conj' else draw(scal_nz())
         return {'cls': 'leftscal', 's': s, 'f': sub()}
     if rule == 'rightscal':
-        inner = sub()
-        s = draw(scal_nz())
-        if purpose == 'conj' and not top and is_linear_desc(inner):
-            # (linear f) * negative scalar sits in a known region
-            # (convex_conj raises); keep that to top-level expressions
-            s = abs(s)
-        return {'cls': 'rightscal', 's': s, 'f': inner}
+        return {'cls': 'rightscal', 's': draw(scal_nz()), 'f': sub()}
     if rule == 'rightvec':
         return {'cls': 'rightvec', 'v': draw(vec(n, nz_values())),
                 'f': sub()}
